@@ -21,5 +21,7 @@ REGISTRY = {
     'C15': e2props.c15,
     'C02': e2props.c02,
     'C11': e2props.c11,
+    'C09': e2props.c09,
+    'C08': e2props.c08,
     'C12': e2props.c12,
 }
